@@ -1,6 +1,6 @@
 ENGINES = [
- {"name": "overlay+vinstr", "path": "bin/vcheck, vinstr/", "serves_properties": ["C18"], "kind_free_text": "builds a go test -overlay from /repo's working tree + harness files + virtual runtime packages + type-directed rewrites (owned map order, sync/go/time shims, hooks); runs shards; classifies against known_findings.json; writes evidence"},
- {"name": "verifrt.enum/choose", "path": "rt/verifrt/choose.go", "serves_properties": ["C18"], "kind_free_text": "exhaustive product enumeration + depth-first exploration of environment choice vectors (map iteration order etc.) with deviation bounding"},
+ {"name": "overlay+vinstr", "path": "bin/vcheck, vinstr/", "serves_properties": ["C18", "C08"], "kind_free_text": "builds a go test -overlay from /repo's working tree + harness files + virtual runtime packages + type-directed rewrites (owned map order, sync/go/time shims, hooks); runs shards; classifies against known_findings.json; writes evidence"},
+ {"name": "verifrt.enum/choose", "path": "rt/verifrt/choose.go", "serves_properties": ["C18", "C08"], "kind_free_text": "exhaustive product enumeration + depth-first exploration of environment choice vectors (map iteration order etc.) with deviation bounding"},
 ]
 NOTES = "All checks run in-package harnesses compiled from /repo's current working tree through go test -overlay (build tag verif); nothing is committed to /repo for instrumentation. fix: commits in /repo are listed in known_findings.json."
 NOT_YET = {}
@@ -9,4 +9,8 @@ CHECKS = {
    technique="exhaustive enumeration of listing permutations x owned map-iteration orders on the real toConfig",
    text="Every snapshot of a catalogue (valid and rejected) x every permutation of each listed kind (k=3 quick, 4 thorough; singly and pairwise product) x every explored map-iteration order inside internal/config (R-map, <=1/2 non-default orders) x repetitions is run through the real toConfig/config.For and compared with reflect.DeepEqual (the reconcilers' own comparison) and by verdict. Bounded-exhaustive over the catalogue; order-dependent candidates are confirmed on the runtime's native order before being reported.",
    note="Trusted: the snapshot catalogue closes the input space (<=4 objects/kind); map orders explored = all orders for <=3 keys, rotations+reversal above; reconciler end-to-end (DeepEqual guard) covered by construction since it calls the same toConfig."),
+ "C08": dict(category="exploration", engine="verifrt.enum/choose", design_ref="5/C08",
+   technique="exhaustive enumeration of a notation catalogue (singles, all ordered pairs, triples, node IPs, advertisement products) through real config.For against a 128-bit interval-set reference model",
+   text="Every entry of a ~410-string address-notation catalogue, every ordered pair (as two pools and as one pool), every triple of a 40-entry sub-catalogue, node internal IPs x pools, the advertisement attachment product (named/selected/neither x node selectors), aggregation lengths 0..32/0..128 on CIDR pools and the local-pref conflict product are run through the real config.For; every accepted result is judged by refcidr (own parser, 128-bit interval sets): pool set == written set, pools pairwise disjoint, no node internal IP inside, attachment sets, aggregate containment, conflicting local-prefs rejected. ~580k configurations per run, exhaustive over the catalogue.",
+   note="Trusted: refcidr (net/netip + math/big) as the meaning of the notations; IPv4 in any notation is one address space; IPv6 CIDRs that cover the IPv4-mapped block (::/0) are outside the catalogue (semantics not fixed by the statement); over-rejection is not a violation."),
 }
